@@ -165,7 +165,9 @@ pub fn calc_depth(s: &str) -> u32 {
 
 #[cfg(not(windows))]
 pub fn calc_depth(s: &str) -> u32 {
-    s.matches("/").count() as u32
+    // the number of directories above the path, `/` included: `/x` has no separator more than
+    // `/` itself, so the separators alone put both on one level
+    s.trim_end_matches('/').matches("/").count() as u32 + 1
 }
 
 pub fn path_error_message(p: &Path, e: io::Error) {
